@@ -16,7 +16,8 @@
    Scope (documented in tools/props/c12.py): a subscription / publication is always taken through
    add_* -> driver's "ready" event -> find_* in one step, so the application holds the only strong handle;
    the liveness timers of C11 never fire (fresh driver heartbeat, no client heartbeat counter, huge
-   inter-service timeout); only the resource-check timer matters.   Definitions only. *)
+   inter-service timeout); only the resource-check timer matters.
+   Fault: the to-driver ring may be full (`ringfull`, operations Stall / Drain): commands are refused.   Definitions only. *)
 Require Import V.Base.MachineInt V.Generated.GenConsts V.Model.CondTimers.
 Open Scope Z_scope.
 
@@ -25,8 +26,9 @@ Open Scope Z_scope.
 Record img := mkImg { i_corr : Z; i_oid : Z }.
 (* a Subscription object the application holds *)
 Record sobj := mkSobj { so_reg : Z; so_imgs : list img; so_closed : bool; so_inmap : bool }.
-(* a Publication handle the application holds; p_inmap: the conductor still has its state entry (which holds the buffers too) *)
-Record pobj := mkPobj { p_reg : Z; p_key : Z; p_inmap : bool }.
+(* a publication: p_held: the application holds the handle; p_inmap: the conductor still has its state entry (which holds
+   the buffers too).  An entry lives while either is true. *)
+Record pobj := mkPobj { p_reg : Z; p_key : Z; p_inmap : bool; p_held : bool }.
 (* log_buffers_by_registration_id: key, mapped file, time_of_last_state_change_ms *)
 Record entry := mkEntry { e_key : Z; e_file : Z; e_time : Z }.
 (* a callback: kind (1 available, 2 unavailable), subscription registration id, correlation id, Image::is_closed
@@ -46,18 +48,20 @@ Record st := mkSt {
   closed_oids : list Z;             (* identities of closed image objects *)
   registry : list entry;
   lingering : list (Z * list img);  (* lingering_image_lists, oldest first *)
-  cblog : list cb                   (* every image callback so far, oldest first *)
+  cblog : list cb;                  (* every image callback so far, oldest first *)
+  ringfull : bool                   (* the to-driver ring refuses commands (stalled driver) *)
 }.
 
-Definition init (t0 cid : Z) : st := mkSt t0 false (cid + 1) 0 [] [] [] [] [] [] [].
+Definition init (t0 cid : Z) : st := mkSt t0 false (cid + 1) 0 [] [] [] [] [] [] [] false.
 
-Definition upd_subs s v := mkSt (t_chk s) (cclosed s) (nid s) (noid s) v (pubs s) (clones s) (closed_oids s) (registry s) (lingering s) (cblog s).
-Definition upd_pubs s v := mkSt (t_chk s) (cclosed s) (nid s) (noid s) (subs s) v (clones s) (closed_oids s) (registry s) (lingering s) (cblog s).
-Definition upd_clones s v := mkSt (t_chk s) (cclosed s) (nid s) (noid s) (subs s) (pubs s) v (closed_oids s) (registry s) (lingering s) (cblog s).
-Definition upd_registry s v := mkSt (t_chk s) (cclosed s) (nid s) (noid s) (subs s) (pubs s) (clones s) (closed_oids s) v (lingering s) (cblog s).
-Definition upd_lingering s v := mkSt (t_chk s) (cclosed s) (nid s) (noid s) (subs s) (pubs s) (clones s) (closed_oids s) (registry s) v (cblog s).
-Definition upd_nid s v := mkSt (t_chk s) (cclosed s) v (noid s) (subs s) (pubs s) (clones s) (closed_oids s) (registry s) (lingering s) (cblog s).
-Definition upd_t_chk s v := mkSt v (cclosed s) (nid s) (noid s) (subs s) (pubs s) (clones s) (closed_oids s) (registry s) (lingering s) (cblog s).
+Definition upd_subs s v := mkSt (t_chk s) (cclosed s) (nid s) (noid s) v (pubs s) (clones s) (closed_oids s) (registry s) (lingering s) (cblog s) (ringfull s).
+Definition upd_pubs s v := mkSt (t_chk s) (cclosed s) (nid s) (noid s) (subs s) v (clones s) (closed_oids s) (registry s) (lingering s) (cblog s) (ringfull s).
+Definition upd_clones s v := mkSt (t_chk s) (cclosed s) (nid s) (noid s) (subs s) (pubs s) v (closed_oids s) (registry s) (lingering s) (cblog s) (ringfull s).
+Definition upd_registry s v := mkSt (t_chk s) (cclosed s) (nid s) (noid s) (subs s) (pubs s) (clones s) (closed_oids s) v (lingering s) (cblog s) (ringfull s).
+Definition upd_lingering s v := mkSt (t_chk s) (cclosed s) (nid s) (noid s) (subs s) (pubs s) (clones s) (closed_oids s) (registry s) v (cblog s) (ringfull s).
+Definition upd_nid s v := mkSt (t_chk s) (cclosed s) v (noid s) (subs s) (pubs s) (clones s) (closed_oids s) (registry s) (lingering s) (cblog s) (ringfull s).
+Definition upd_full s v := mkSt (t_chk s) (cclosed s) (nid s) (noid s) (subs s) (pubs s) (clones s) (closed_oids s) (registry s) (lingering s) (cblog s) v.
+Definition upd_t_chk s v := mkSt v (cclosed s) (nid s) (noid s) (subs s) (pubs s) (clones s) (closed_oids s) (registry s) (lingering s) (cblog s) (ringfull s).
 
 Definition uses (k : Z) (i : img) : bool := i_corr i =? k.
 (* Arc::strong_count(&entry.log_buffers) > 1 *)
@@ -114,9 +118,9 @@ Definition live (o : sobj) : bool := so_inmap o.
 
 Definition linger (s : st) (now : Z) (imgs : list img) : st := upd_lingering s (lingering s ++ [(now, imgs)]).
 Definition log_cb (s : st) (c : list cb) : st :=
-  mkSt (t_chk s) (cclosed s) (nid s) (noid s) (subs s) (pubs s) (clones s) (closed_oids s) (registry s) (lingering s) (cblog s ++ c).
+  mkSt (t_chk s) (cclosed s) (nid s) (noid s) (subs s) (pubs s) (clones s) (closed_oids s) (registry s) (lingering s) (cblog s ++ c) (ringfull s).
 Definition close_imgs (s : st) (imgs : list img) : st :=
-  mkSt (t_chk s) (cclosed s) (nid s) (noid s) (subs s) (pubs s) (clones s) (closed_oids s ++ map i_oid imgs) (registry s) (lingering s) (cblog s).
+  mkSt (t_chk s) (cclosed s) (nid s) (noid s) (subs s) (pubs s) (clones s) (closed_oids s ++ map i_oid imgs) (registry s) (lingering s) (cblog s) (ringfull s).
 
 (* on_available_image *)
 Definition on_available (s : st) (now corr reg file : Z) : st :=
@@ -128,7 +132,7 @@ Definition on_available (s : st) (now corr reg file : Z) : st :=
         let s2 := log_cb s1 [mkCb CB_AVAIL reg corr 0 (noid s)] in
         let s3 := upd_subs s2 (set_sub (mkSobj reg (so_imgs o ++ [i]) (so_closed o) (so_inmap o)) (subs s2)) in
         let s4 := mkSt (t_chk s3) (cclosed s3) (nid s3) (noid s3 + 1) (subs s3) (pubs s3) (clones s3) (closed_oids s3)
-                       (registry s3) (lingering s3) (cblog s3) in
+                       (registry s3) (lingering s3) (cblog s3) (ringfull s3) in
         linger s4 now (so_imgs o)
       else s
   | None => s
@@ -190,9 +194,9 @@ Definition closing_lists (now : Z) (l : list sobj) : list (Z * list img) :=
 Definition close_client (s : st) (now : Z) : st :=
   if cclosed s then s else
   mkSt (t_chk s) true (nid s) (noid s) (map closed_sub (subs s))
-       (map (fun p => mkPobj (p_reg p) (p_key p) false) (pubs s))
+       (map (fun p => mkPobj (p_reg p) (p_key p) false true) (filter p_held (pubs s)))
        (clones s) (closed_oids s ++ map i_oid (closing_imgs (subs s))) (registry s)
-       (lingering s ++ closing_lists now (subs s)) (cblog s ++ closing_cbs (subs s)).
+       (lingering s ++ closing_lists now (subs s)) (cblog s ++ closing_cbs (subs s)) (ringfull s).
 
 Inductive op :=
 | Subscribe (now : Z)                      (* add_subscription; ON_SUBSCRIPTION_READY in a duty cycle; find_subscription *)
@@ -204,7 +208,9 @@ Inductive op :=
 | DropPub (now reg : Z)
 | Hold (reg idx : Z)                       (* the application clones image idx of a subscription *)
 | Unhold (j : Z)                           (* ... and drops its j-th clone *)
-| CloseClient (now : Z).
+| CloseClient (now : Z)
+| Stall                                    (* the driver stalls and the to-driver ring fills up: every further command is refused *)
+| Drain.                                   (* the driver consumes the ring *)
 
 Fixpoint remove_nth {A} (n : nat) (l : list A) : list A :=
   match l, n with
@@ -214,29 +220,44 @@ Fixpoint remove_nth {A} (n : nat) (l : list A) : list A :=
   end.
 
 (* result of the API part of an operation (registration id), state *)
+(* Drop for Publication -> release_publication: the REMOVE_PUBLICATION command draws a correlation id; if the ring
+   refuses it the error is propagated (`?`) BEFORE the state entry is forgotten: the entry, and with it a reference
+   to the log buffers, stays in the conductor until the client is closed *)
+Definition is_held_pub (reg : Z) (p : pobj) : bool := (p_reg p =? reg) && p_held p.
+Definition drop_pub (s : st) (reg : Z) : st :=
+  match find (is_held_pub reg) (pubs s) with
+  | Some p =>
+      if p_inmap p then
+        if ringfull s then upd_nid (upd_pubs s (map (fun x => if is_held_pub reg x then mkPobj (p_reg x) (p_key x) true false else x) (pubs s))) (nid s + 1)
+        else upd_nid (upd_pubs s (filter (fun x => negb (is_held_pub reg x)) (pubs s))) (nid s + 1)
+      else upd_pubs s (filter (fun x => negb (is_held_pub reg x)) (pubs s))
+  | None => s
+  end.
+
+(* result of the API part of an operation (registration id), state.
+   add_subscription / add_publication draw a correlation id and write the command; a refused write is an error
+   (IllegalStateError::CouldNotWriteCommandToDriver) and nothing is registered.
+   release_subscription ignores a refused REMOVE_SUBSCRIPTION (drop_sub is the same with a full ring). *)
 Definition step (m : mode) (lg : Z) (s : st) (o : op) : outcome (st * outcome Z) :=
   match o with
   | Subscribe now =>
       if cclosed s then Ok (s, Err Closed) else
+      if ringfull s then Ok (upd_nid s (nid s + 1), Err IllegalState) else
       let id := nid s in
       let s1 := upd_subs (upd_nid s (id + 1)) (subs s ++ [mkSobj id [] false true]) in
       s2 <- timers m lg now s1 ;; Ok (s2, Ok id)
   | Publish now share file =>
       if cclosed s then Ok (s, Err Closed) else
+      if ringfull s then Ok (upd_nid s (nid s + 1), Err IllegalState) else
       let id := nid s in
       let key := if share <? 0 then id else share in
-      let s1 := upd_registry (upd_pubs (upd_nid s (id + 1)) (pubs s ++ [mkPobj id key true])) (acquire (registry s) key file) in
+      let s1 := upd_registry (upd_pubs (upd_nid s (id + 1)) (pubs s ++ [mkPobj id key true true])) (acquire (registry s) key file) in
       s2 <- timers m lg now s1 ;; Ok (s2, Ok id)
   | Avail now corr reg file => s1 <- timers m lg now (on_available s now corr reg file) ;; Ok (s1, Ok 0)
   | Unavail now corr reg => s1 <- timers m lg now (on_unavailable s now corr reg) ;; Ok (s1, Ok 0)
   | Tick now => s1 <- timers m lg now s ;; Ok (s1, Ok 0)
   | DropSub now reg => Ok (drop_sub s now reg, Ok 0)
-  | DropPub now reg =>
-      match find (fun p => p_reg p =? reg) (pubs s) with
-      | Some p => let s1 := upd_pubs s (filter (fun x => negb (p_reg x =? reg)) (pubs s)) in
-                  Ok (if p_inmap p then upd_nid s1 (nid s + 1) else s1, Ok 0)
-      | None => Ok (s, Ok 0)
-      end
+  | DropPub now reg => Ok (drop_pub s reg, Ok 0)
   | Hold reg idx =>
       match find_sub reg (subs s) with
       | Some o => match (if idx <? 0 then None else nth_error (so_imgs o) (Z.to_nat idx)) with
@@ -247,6 +268,8 @@ Definition step (m : mode) (lg : Z) (s : st) (o : op) : outcome (st * outcome Z)
       end
   | Unhold j => Ok (if j <? 0 then s else upd_clones s (remove_nth (Z.to_nat j) (clones s)), Ok 0)
   | CloseClient now => Ok (close_client s now, Ok 0)
+  | Stall => Ok (upd_full s true, Ok 0)
+  | Drain => Ok (upd_full s false, Ok 0)
   end.
 
 (* ---- what one operation shows ---- *)
